@@ -3752,6 +3752,10 @@ def load_public_keys(keylist: KeyListArg) -> Sequence[SSHKey]:
                 key = read_public_key(key)
             elif isinstance(key, bytes):
                 key = import_public_key(key)
+            else:
+                # Keys compare equal only if their private values match,
+                # so make sure the keys returned here don't have any
+                key = key.convert_to_public()
 
             result.append(key)
 
